@@ -37,6 +37,12 @@ def _common_storage(left, right):
     """
     left = np.atleast_1d(np.asarray(left))
     right = np.atleast_1d(np.asarray(right))
+    # Object arrays (e.g. strings read in with pandas) hold references rather
+    # than values, so we convert them to strings
+    if left.dtype.kind == 'O':
+        left = left.astype(str)
+    if right.dtype.kind == 'O':
+        right = right.astype(str)
     if left.dtype.kind in 'US' and right.dtype.kind in 'US':
         dtype = np.promote_types(left.dtype, right.dtype)
     elif left.dtype.kind in 'biuf' and right.dtype.kind in 'biuf':
